@@ -65,7 +65,10 @@ func c17Check(env *core.Env, cc core.Case) core.Verdict {
 	v := core.Verdict{Status: core.Held, Features: []string{"cmd:" + c.Cmd, fmt.Sprintf("len:%d", c.Len), "pos:" + c.Pos}, Counts: map[string]int{}}
 	v.Nontrivial = c.Len >= 65536
 	loud := func(r *sut.Result, before sut.Snapshot) (bool, core.Verdict) {
-		if r.Class() == sut.ClassFault || r.Class() == sut.ClassTimeout {
+		if r.Class() == sut.ClassTimeout {
+			return true, core.Incon("watchdog hit, not judged: %s", describe(r))
+		}
+		if r.Class() == sut.ClassFault {
 			return true, core.Viol("crash:"+c.Cmd, "%s with a %d-byte line crashed or hung: %s", c.Cmd, c.Len, describe(r))
 		}
 		if r.Exit != 0 {
@@ -189,7 +192,10 @@ func c17Check(env *core.Env, cc core.Case) core.Verdict {
 			return core.Incon("cannot write tree: %v", err)
 		}
 		r := cli(env, root, nil, "regex", "format", "--check", "932100")
-		if r.Class() == sut.ClassFault || r.Class() == sut.ClassTimeout {
+		if r.Class() == sut.ClassTimeout {
+			return core.Incon("watchdog hit, not judged: %s", describe(r))
+		}
+		if r.Class() == sut.ClassFault {
 			return core.Viol("crash:format-check", "format --check crashed: %s", describe(r))
 		}
 		if r.Exit != 0 {
